@@ -18,7 +18,7 @@ const (
 	kLive  = 1
 	kDying = 2 // mark destroyed by the kernel; its IN_IGNORED (and stale events) may still be queued
 
-	verifMaxMarks = 8
+	verifMaxMarks = 10
 	verifFd       = 7
 )
 
